@@ -1,7 +1,7 @@
 SPECIFICATION Spec
 CONSTANTS
   KeySeq <- KeySeqC
-  Vals <- Vals2
+  Vals <- ValsL
   Acts <- ActsC44
   MaxOps = 9
   DiskInits <- DiskEmpty6
